@@ -362,7 +362,8 @@ func run(r *ev.Run) int {
 		"scheme of the authorization header is compared case-insensitively (documented by grpc-middleware AuthFromMD, rfc2617 1.2); the token itself byte-exactly",
 		"a call counts as refused iff its status is Unauthenticated and as admitted iff it got any status produced behind the interceptor (OK, Unimplemented, InvalidArgument, ...); Unavailable/DeadlineExceeded are inconclusive",
 		"several authorization values in one call are not probed (which one counts is not stated)",
-		"for acceptance only the canonical right credential is binding; variants the reference predicate accepts (intermediate chain, extra SANs, wildcard, upper-case SAN) and names carried outside the matching SAN type (CN-only hostname, IP text in a dNSName) are recorded, not judged",
+		"for acceptance only the canonical right credential is binding; variants the reference predicate accepts (intermediate chain, extra SANs, wildcard, upper-case SAN) and an address written as text into a dNSName SAN are recorded, not judged",
+		"'valid for that hostname' is the x509 rule: the name is among the certificate's subjectAltNames of the matching type (dNSName resp. iPAddress); the subject CN is never an identity, with or without SANs",
 		"option sets without a trusted CA are outside the statement: their outcomes are recorded, not judged",
 		"a :path spelling counts as routed by the server iff an unprotected unary call (Cluster/Status) or server stream (KV/IterateRange) spelled that way is answered OK; an unrouted spelling must not answer OK and must leave the state unchanged",
 		"where a client obtained a TLS session is irrelevant to the endpoint it presents it to: the oracle for the second endpoint is the same predicate over the certificate's construction parameters",
